@@ -455,36 +455,77 @@ theorem denL_fracSimplify (S : LeafSem card leaf) {n d e : Expr} (hn : Good S n)
 
 theorem denL_postFrac (S : LeafSem card leaf) {e : Expr} (h : Good S e) (σ : Val) :
     denL card leaf (postFrac e) σ = denL card leaf e σ := by
-  sorry
+  unfold postFrac
+  split
+  · rename_i a b
+    split
+    · rename_i h1
+      rw [TrsoAux.isOne_iff.mp h1]; simp
+    · split
+      · rename_i h2
+        have := exprEq_sound _ _ h2
+        subst this
+        have ha : denL card leaf a σ ≠ 0 := ne_of_gt (good_pos S (e := a) ⟨h.1.1, h.2.1⟩ σ)
+        simp [div_self ha]
+      · rfl
+  · rfl
+
+mutual
+theorem TrsoAux.denLProd_flattenExprs_aux : ∀ (es : List Expr) (σ : Val),
+    denLProd card leaf (flattenExprs es) σ = denLProd card leaf es σ
+  | [], σ => by simp [flattenExprs]
+  | e :: es, σ => by
+    simp only [flattenExprs, TrsoAux.denLProd_append, TrsoAux.denLProd_cons]
+    rw [TrsoAux.denLProd_flattenExpr e σ, TrsoAux.denLProd_flattenExprs_aux es σ]
+theorem TrsoAux.denLProd_flattenExpr : ∀ (e : Expr) (σ : Val),
+    denLProd card leaf (flattenExpr e) σ = denL card leaf e σ
+  | .prod gs, σ => by
+    simp only [flattenExpr, TrsoAux.denL_prod']; exact TrsoAux.denLProd_flattenExprs_aux gs σ
+  | .prob _ _ _, σ => by simp [flattenExpr]
+  | .sum _ _, σ => by simp [flattenExpr]
+  | .frac _ _, σ => by simp [flattenExpr]
+  | .one, σ => by simp [flattenExpr]
+  | .zero, σ => by simp [flattenExpr]
+  | .q _ _, σ => by simp [flattenExpr]
+end
 
 theorem denLProd_flattenExprs (es : List Expr) (σ : Val) :
-    denLProd card leaf (flattenExprs es) σ = denLProd card leaf es σ := by
-  sorry
+    denLProd card leaf (flattenExprs es) σ = denLProd card leaf es σ :=
+  TrsoAux.denLProd_flattenExprs_aux es σ
 
 /-! ### `Good` is preserved (repackaging of Lemmas/TrsoVocab + TrsoClean) -/
 
 theorem good_productSafe (S : LeafSem card leaf) {es : List Expr} (h : ∀ e ∈ es, Good S e) : Good S (productSafe es) := by
-  sorry
+  have hl := (goodList_iff S es).2 h
+  exact ⟨clean_productSafe hl.1, wf_productSafe hl.2⟩
 
 theorem good_truediv (S : LeafSem card leaf) {a b e : Expr} (ha : Good S a) (hb : Good S b) (h : truediv a b = .ok e) :
     Good S e := by
-  sorry
+  obtain ⟨e', he', ce'⟩ := truediv_ok ha.1 hb.1
+  rw [h] at he'; cases he'
+  exact ⟨ce', wf_truediv ha.2 hb.2 h⟩
 
 theorem good_mul (S : LeafSem card leaf) {a b e : Expr} (ha : Good S a) (hb : Good S b) (h : mul a b = .ok e) :
     Good S e := by
-  sorry
+  obtain ⟨e', he', ce'⟩ := mul_ok ha.1 hb.1
+  rw [h] at he'; cases he'
+  exact ⟨ce', wf_mul ha.2 hb.2 h⟩
 
 theorem good_fracSimplify (S : LeafSem card leaf) {n d e : Expr} (hn : Good S n) (hd : Good S d)
     (h : fracSimplify n d = .ok e) : Good S e := by
-  sorry
+  obtain ⟨e', he', ce'⟩ := fracSimplify_ok hn.1 hd.1
+  rw [h] at he'; cases he'
+  exact ⟨ce', wf_fracSimplify hn.2 hd.2 h⟩
 
 theorem good_sumSafe (S : LeafSem card leaf) {e : Expr} {rs : List Var} (b : Bool) (he : Good S e)
     (hr : ∀ v ∈ rs, S.Rng v) : Good S (sumSafe e rs b) := by
-  sorry
+  exact ⟨clean_sumSafe b he.1, wf_sumSafe S.adm_mono b he.2 hr⟩
 
 theorem good_canonicalize (S : LeafSem card leaf) {e e' : Expr} (he : Good S e) (h : canonicalize e = .ok e') :
     Good S e' := by
-  sorry
+  obtain ⟨e'', he'', ce''⟩ := canonicalize_ok he.1
+  rw [h] at he''; cases he''
+  exact ⟨ce'', wf_canonicalize S.adm_mono he.2 h⟩
 
 end Trso
 end Y0
